@@ -132,7 +132,9 @@ T.update({
     missed_initially="C17's table had single-leaf inputs only", strengthening="six rows with two-leaf inputs (rank / trailing size, either leaf, condition and predict)"),
  "C18-prod-helper-kron-order": dict(property="C18", what="observation model of a Product uses jnp.kron ordering, inconsistent with F, P, A",
     needs="a product with a factor whose observation vector has several non-zero entries (Celerite, Sum, CARMA)",
-    caught_by={"C10": "product value vs k1 * k2"}, not_caught_by={"C18": "every clause of C18 (identity, semigroup, expm, h P A h = evaluate) still holds for the changed model; the broken statement (value of a product = product of values) is C10's"}),
+    caught_by={"C18": "h P A h of the composite model vs the product / sum of the component values (concrete kernel and times)", "C10": "product value vs k1 * k2"},
+    missed_initially="C18 compared h P A h only with the kernel's own evaluate (a tautology for composites)",
+    strengthening="composites in C18's oracle carry an independent value (the same arithmetic on their built-in components), and three products with a multi-entry observation vector were added"),
  "C19-subspace-sorted-axes": dict(property="C19", what="Subspace sorts and de-duplicates the axes", needs="unsorted or repeated axes with a non-permutation-invariant base kernel",
     caught_by={"C19": "theorem on the regenerated definition + oracle"}),
  "C20-acvf-even-ma-terms": dict(property="C20", what="carma_acvf replaces (-r)^k by -(r^k)", needs="moving-average order q >= 2 with a non-zero even coefficient",
